@@ -292,6 +292,9 @@ func classify(r *rec, lines []string, script []string) {
 			}
 		case "bwret":
 			r.Count("bw:" + e.res)
+			if e.b >= 20 {
+				r.Count("nested-bw-from-handler:" + e.res)
+			}
 			if e.res != "ok" {
 				branch = true
 			}
